@@ -369,10 +369,16 @@ def write_pad_codewords(buff, version, capacity, length):
     # character position in Micro QR Code versions M1 and M3 symbols shall be
     # represented as 0000.
     write = buff.extend
+    pad_codewords = ((1, 1, 1, 0, 1, 1, 0, 0), (0, 0, 0, 1, 0, 0, 0, 1))
     if version in (consts.VERSION_M1, consts.VERSION_M3):
-        write([0] * (capacity - length))
+        # The final data codeword is 4 bits long, its Pad Codeword is 0000
+        last_codeword_start = capacity - 4
+        if length < last_codeword_start:
+            write([0] * (-length % 8))  # Padding bits up to the codeword boundary
+            for i in range(last_codeword_start // 8 - (length + 7) // 8):
+                write(pad_codewords[i % 2])
+        write([0] * (capacity - len(buff)))
     else:
-        pad_codewords = ((1, 1, 1, 0, 1, 1, 0, 0), (0, 0, 0, 1, 0, 0, 0, 1))
         for i in range(capacity // 8 - length // 8):
             write(pad_codewords[i % 2])
 
